@@ -41,9 +41,10 @@ type RunResult struct {
 	Fails      []Fail // failures of the checked property (first failing step only)
 	FailStep   int
 	FailCmd    *Cmd
-	OtherRule  string // run ended by another property's rule
-	OtherFails []Fail `json:"-"`
-	Quiet      string // run ended without verdict
+	OtherRule  string   // run ended by another property's rule
+	Soft       []string // rules of other properties broken by refused writes that were taken back (the run went on)
+	OtherFails []Fail   `json:"-"`
+	Quiet      string   // run ended without verdict
 	Steps      []Step
 	LogHash    string
 	Probes     map[string]int
@@ -504,13 +505,15 @@ func (e *Engine) exec1(step int, cmd *Cmd, twin bool) {
 		snap = e.M.Clone()
 	}
 	var before Item
+	beforeID, haveBefore := "", false
 	if mt != nil && (cmd.Op == "Put" || cmd.Op == "Update" || cmd.Op == "Delete") {
 		k := cmd.Key
 		if cmd.Op == "Put" {
 			k = cmd.Item
 		}
 		if keyProblem(mt.Def.KeyAttrs(), k, false) == "" {
-			before = mt.Items[KeyID(mt.Def, k)].Clone()
+			beforeID, haveBefore = KeyID(mt.Def, k), true
+			before = mt.Items[beforeID].Clone()
 		}
 	}
 	ex := e.M.Apply(cmd)
@@ -561,6 +564,25 @@ func (e *Engine) exec1(step int, cmd *Cmd, twin bool) {
 		}
 	}
 	st.Fails = fails
+	if haveBefore && snap == nil && len(fails) > 0 && !hasProp(fails, e.Prop) && got.Failed() && !ex.AnyFail && !ex.Unspecified && ex.Out.Class == "ok" &&
+		e.M.Clients[cmd.C].Fail == "none" && e.res.OtherRule == "" && quiet == "" && (got.Class == "validation" || got.Class == "ccf" || strings.HasPrefix(got.Class, "other:")) {
+		// A single-item write was refused where the model expected success. That
+		// breaks a rule of another property (reported by that property's check);
+		// for THIS check the run need not end: the refused write is taken out of
+		// the model again, and if the call left no trace (C08, checked here and by
+		// the state comparison of afterStep) model and implementation agree again
+		// and the history goes on, so that this property's own rules still see the
+		// rest of it.
+		if before != nil {
+			mt.Items[beforeID] = before
+		} else {
+			delete(mt.Items, beforeID)
+		}
+		e.probe("refused-write-taken-back:" + fails[0].Rule)
+		e.res.Soft = append(e.res.Soft, fails[0].Rule)
+		e.afterStep(step, cmd, got, Expect{AnyFail: true}, &st)
+		return
+	}
 	e.addFails(step, cmd, fails)
 	if e.stop && got.Failed() && len(e.res.Fails) == 0 && len(fails) > 0 && e.M.Clients[cmd.C].Fail == "none" && dataOp(cmd.Op) {
 		// the call failed where the model expected success (another property's
@@ -600,6 +622,15 @@ func (e *Engine) exec1(step int, cmd *Cmd, twin bool) {
 		return
 	}
 	e.afterStep(step, cmd, got, ex, &st)
+}
+
+func hasProp(fails []Fail, prop string) bool {
+	for _, f := range fails {
+		if f.Prop() == prop {
+			return true
+		}
+	}
+	return false
 }
 
 // dataOp: the operations C08 speaks about (the table and index definitions
